@@ -14,7 +14,11 @@ their value; 0.8/0.9 carries one record per revision with the base its delta is 
 the target, last parent otherwise), install skips present revisions, needs every base, adds revision,
 inventory and the inventory's missing texts.  (2) merge directive format 2 at byte level: header search and
 format lookup, stanza block (codec = parameter), `# Begin patch` / `# Begin bundle` sections built with
-bytes.splitlines(True).  (3) _verify_patch's normalisation (CR/CRLF -> LF, trailing spaces dropped).
+bytes.splitlines(True); the fields themselves (Model/C40F.lean): the stanza `_to_lines` builds (sorted keyword tags,
+then source_branch / message / base_revision_id), `_from_lines`' lookups, required keywords and NoMergeSource check,
+and the timestamp codec format_patch_date / parse_patch_date of crates/patch (calendar of C47) - only the line
+encoding of the stanza (bzrformats rio_patch) stays a parameter.  (3) _verify_patch's normalisation (CR/CRLF -> LF,
+trailing spaces dropped).
 
 T2: histories generated as abstract tree states per revision (adds, content edits incl. binary/NUL/CRLF/no
 final newline, renames, moves of directories, name swaps, deletions, exec toggles, symlinks and target
@@ -28,17 +32,27 @@ compared with the model.  Directives with random fields are serialised by the re
 by line with the model (stanza block taken from the real codec), parsed back from the list and from a file
 object with the model predicting the stanza block the codec consumes and the patch/bundle split; a ~10 %
 stream damages the text outside the stanza (junk before the header, other / unknown formats, bad payload
-markers) and is compared on error kind and payload split.  The normalisation is compared exhaustively on all
-strings over {a, space, CR, LF} up to length 7, and on real diffs with one-byte mutations.
+markers) and is compared on error kind and payload split.  The stanza handed to / returned by the real rio_patch
+codec is captured and compared with the model's field <-> stanza functions (md.fields / md.unfields, incl.
+directives without testament sha1, epoch times, offsets that are refused); format_patch_date / parse_patch_date
+are compared directly on times up to year 9999, offsets incl. negative with minutes, +-2359, invalid ones, and on
+canonical-shape strings with out-of-range fields (Feb 30, hour 24, offset 2460) by error kind.  The normalisation
+is compared exhaustively on all strings over {a, space, CR, LF} up to length 6 (7 thorough; the only exhaustive
+part, counted separately), and on real diffs with one-byte mutations.  Every run contains one directed scenario
+(forced_history): two branches edit the same line and retarget the same symlink, each merges the other
+(criss-cross), so that a conflicting bundle-merge, symlink retargets in 0.9 bundles and criss-cross merges in both
+directions are reached on every seed.
 
 Oracle (independent of the model): after every install every revision of the target's ancestry is present
 with an equal Revision, an equal StrictTestament3 text, and byte-identical file texts whose sha1 is the one
 the inventory records; nothing the repository held changed; the returned revision is the target; merging
 the target into a checkout from the bundle (Merger.from_mergeable) and from the branch gives identical
 working trees, conflicts and pending merges; a bundle with one byte changed either raises or installs
-exactly the original revisions (read in a forked child with a time limit); a truncated v4 bundle raises; from_lines(to_lines(d)) == d field by field on the documented domain (no
-patch line starting with `# Begin bundle`; a patch that is followed by a bundle ends with a newline;
-integral time); MergeDirective2.from_objects directives install their target with the testament sha1 they
+exactly the original revisions (read in a forked child with a time limit); a truncated v4 bundle raises;
+from_lines(to_lines(d)) == d field by field (list and file object) outside the documented exclusions (a patch line
+starting with `# Begin bundle`; time 0 keeps no timezone - "the epoch is always given in utc"; integral time);
+to_lines may refuse only dates outside the timestamp's domain; parse_patch_date(format_patch_date(t, tz)) == (t, tz)
+on the domain of patch_date_roundtrip; MergeDirective2.from_objects directives install their target with the testament sha1 they
 name and their patch verifies; a patch mutation outside {space, CR, LF} is never reported as verified.
 
 Mutants this was built against (scratch worktree /var/tmp/wt-C40; all caught with a concrete input unless
@@ -52,6 +66,22 @@ final text flush of RevisionInstaller (file records never end a bundle), list-co
 to_lines, filter() rewrite of the ghost stripping.  install_bundle without its has_revision skip makes the
 real code loop for ever: the per-scenario alarm turns that into an infrastructure failure (exit 2).
 Fix-reverted runs (each a plain VIOLATION): b80d98c (parse_patch_date sign), 8f646b8 (incomplete bz2 stream).
+
+Findings of the improvement round (family-tagged violations until the coordinator decides; repro scripts and
+diffs in /var/tmp/imp-C39C40/findings):
+  directive-file-roundtrip-patch-without-final-newline-before-bundle: a patch whose last line has no newline,
+    followed by a bundle, written to a file: `# Begin bundle` is glued to the last patch line, the bundle is read
+    as part of the patch (Lean: directive_file_nonl_witness; formerly classified "outside domain").
+  directive-without-testament-sha1-does-not-parse: _to_lines omits a None testament_sha1, _from_lines then calls
+    the constructor without the required keyword (TypeError) (Lean: directive_no_testament_witness; the model has
+    the strict and the tolerant variant, selected by a probe of the tree).
+Mutants of the improvement round: BundleTree.get_symlink_target prefers the base tree's target (symlink retarget
+lost in 0.9 bundles) -> plain VIOLATION on every seed through the directed scenario (TestamentMismatch at install);
+_from_lines tolerant of a missing testament (the proposed fix) -> clean for that family, model variant switches.
+Rust (crates/patch/src/timestamp.rs, rebuilt into a scratch target dir): parse_patch_date adds the offset minutes
+without `* 60` -> plain VIOLATION (a directive at +0530 comes back with another time and timezone; also 130 T2
+mismatches of pdate.parse); format_patch_date without the "epoch in utc" rule -> the property still holds (the
+timezone even survives), reported as a broken tie by md.fields / pdate.fmt (8 mismatches).
 """
 import hashlib
 import os
@@ -80,10 +110,14 @@ RULE = ("scenario = (seed, index, repository format): a generated history of 5-8
 ASSUMPTIONS = [
     "sha-1 is injective on the texts met (a changed text has a changed sha1); bz2's CRC detects damaged compressed "
     "blocks: both are what makes a mutated bundle fail, neither is modelled",
-    "the stanza codec of bzrformats (rio.Stanza, rio_patch.to_patch_lines / read_patch_stanza) round-trips: "
-    "dec(enc(fields) ++ ['# \\n'] ++ rest) = (fields, rest) — the hypothesis of directive_roundtrip, checked on "
-    "every generated directive through the real code",
-    "merge directive times are whole seconds (format_patch_date has second resolution)",
+    "the stanza LINE codec of bzrformats (rio.Stanza, rio_patch.to_patch_lines / read_patch_stanza) round-trips: "
+    "dec(enc(stanza) ++ ['# \\n'] ++ rest) = (stanza, rest) — the hypothesis CodecLaw of directive_roundtrip / "
+    "directive_fields_roundtrip, checked on every generated directive through the real code (the stanza built from "
+    "the fields and the fields read from the stanza are modelled and proved)",
+    "merge directive times are whole seconds (format_patch_date has second resolution); revision ids and sha1s are "
+    "valid UTF-8 (bytes.decode / str.encode around the stanza are inverse there)",
+    "parse_patch_date is modelled on strings of the canonical shape `dddd-dd-dd dd:dd:dd [+-]dddd` with seconds < 60 "
+    "(chrono's leniency about widths, spaces and leap seconds is outside the model); years 0..9999",
 ]
 TRUSTED = [
     "mpdiff, container, bz2, base64 and patch-text encodings (bzrformats / stdlib) and the 0.9 text format's "
@@ -380,9 +414,13 @@ def forced_history(rng):
     same line of one file and retarget the same symlink (a merge of one into the other conflicts), each
     side then merges the other (criss-cross: r04 = r02+r03, r05 = r03+r02) and goes on
 
-        r01 - r02 - r04 - r06
-           \   X
-            r03 - r05 - r07
+        r01 - r02 - r04 - r06 ------------------- r08
+           `   X           `                     /
+            r03 - r05 - r07  s01 - s02 - ... - s13
+
+    and a long side branch off r06 (13 revisions: edits, a binary add, a rename, an exec bit, a symlink
+    retarget) merged back into the OLD first parent r06: between the first parent's inventory and the
+    merge's there are more inventories than the v4 installer's cache of 10 holds.
     """
     F, L, D, G, H = b"f-1", b"s-2", b"d-3", b"f:4", b"f/5"
     body = [rng.choice(LINES) for _ in range(2)] + [b"the contested line\n"] + [rng.choice(LINES) for _ in range(2)]
@@ -406,20 +444,51 @@ def forced_history(rng):
     t7 = dict(t5); t7[F] = f(right + [b"bottom %d\n" % rng.randrange(100)], True)
     t7[L] = (ROOT_ID, "link", "symlink", "target-d", False)
     trees = [t1, t2, t3, t4, t5, t6, t7]
+    rids = [b"r%02d" % (i + 1) for i in range(7)]
     parents = [[], [b"r01"], [b"r01"], [b"r02", b"r03"], [b"r03", b"r02"], [b"r04"], [b"r05"]]
     ops = [["init"], ["modify", "target"], ["modify", "target", "add"], ["merge-content", "merge-add"],
            ["merge-content"], ["modify"], ["modify", "exec", "target"]]
+    # the long side branch off r06 and its merge into r06
+    B = b"f-6"
+    cur, lines, prev = dict(t6), [b"top\n"] + left, b"r06"
+    for k in range(1, LONG_SIDE + 1):
+        lines = lines + [b"side line %d %d\n" % (k, rng.randrange(100))]
+        cur = dict(cur)
+        cur[F] = f(lines, cur[F][4])
+        o = ["modify"]
+        if k == 2:
+            cur[B] = (D, "extra.bin", "file", b"\x00\x01binary\xff\n" + rng.choice(LINES), False); o.append("add")
+        elif k == 3:
+            cur[G] = (ROOT_ID, "g-moved", "file", cur[G][3], cur[G][4]); o.append("move")
+        elif k == 4:
+            cur[G] = cur[G][:4] + (True,); o.append("exec")
+        elif k == 6:
+            cur[L] = (ROOT_ID, "link", "symlink", "target-side", False); o.append("target")
+        elif k == 9:
+            cur[H] = (D, "renamed-on-side", "file", cur[H][3], cur[H][4]); o.append("rename")
+        trees.append(cur); rids.append(b"s%02d" % k); parents.append([prev]); ops.append(o)
+        prev = rids[-1]
+    merged = dict(cur)
+    merged[F] = f(lines + [b"merged %d\n" % rng.randrange(100)], cur[F][4])
+    trees.append(merged); rids.append(b"r08"); parents.append([b"r06", prev]); ops.append(["merge-content", "merge-all"])
     revs = []
-    for i in range(7):
-        revs.append(dict(rid=b"r%02d" % (i + 1), parents=parents[i], tree=trees[i], ops=ops[i],
+    for i in range(len(trees)):
+        revs.append(dict(rid=rids[i], parents=parents[i], tree=trees[i], ops=ops[i],
                          msg=rng.choice(MESSAGES), ts=float(1500000000 + i * 1000), tz=rng.choice([0, 3600, -12600]),
                          committer=rng.choice(COMMITTERS), props=rng.choice([{}, {"branch-nick": "forced"}])))
     return revs
 
 
+# inventories between the first parent (r06) and the merge (r08): more than the v4 installer caches (LRUCache(10))
+LONG_SIDE = 13
+
+
 # (bundle base, target, tree the target is merged into): a conflicting merge, the criss-cross in both
 # directions, and a merge whose base is one of the two criss-cross merges
-FORCED_MERGES = [(b"r01", b"r03", b"r02"), (b"r03", b"r07", b"r06"), (b"r02", b"r06", b"r07"), (b"r04", b"r06", b"r04")]
+FORCED_MERGES = [(b"r01", b"r03", b"r02"), (b"r03", b"r07", b"r06"), (b"r02", b"r06", b"r07"), (b"r04", b"r06", b"r04"),
+                 (b"r04", b"r08", b"r07")]
+# (base, target) bundles that carry the long side branch and its merge into the old first parent
+FORCED_BUNDLES = [(b"r06", b"r08"), (b"r01", b"r08")]
 
 
 # ------------------------------------------------------------------ realisation
@@ -1179,6 +1248,10 @@ def _run_scenario(args):
                 data = do_bundle(sc, b, t, ver, None, out)
                 if data is not None:
                     do_merge(sc, b, t, this, ver, data, out)
+        for b, t in FORCED_BUNDLES:
+            cnt["pair:forced-long-side-branch"] += 1
+            for ver in vers:
+                do_bundle(sc, b, t, ver, None, out)
         from_objects_case(sc, b"r03", b"r07", rng, out)
         shutil.rmtree(sc["dir"], ignore_errors=True)
         return _plain(out)
@@ -1337,19 +1410,30 @@ def date_in_domain(t, tz):
 
 
 def classify_directive(kw, via_file):
-    """-> (by-design exclusion or None, finding family or None), both computed from the input.
-    Exclusions are documented behaviour; families are defects of the unchanged code (reported)."""
+    """-> (by-design exclusion or None, candidate finding family or None), both computed from the input.
+    Exclusions are documented behaviour; a candidate family only becomes the family of a violation when
+    the observed damage is exactly the one that family predicts (nonl_outcome / a TypeError)."""
     p, b = kw["patch"], kw["bundle"]
     dom = fam = None
     if p is not None and any(l.startswith(b"# Begin bundle") for l in p.splitlines(True)):
         dom = "outside-domain:patch-line-starts-with-bundle-marker"
     elif kw["time"] == 0 and kw["timezone"] != 0:
         dom = "by-design:epoch-is-written-in-utc"
-    if kw["testament_sha1"] is None:
-        fam = "directive-without-testament-sha1-does-not-parse"
-    elif via_file and p and b is not None and not p.endswith(b"\n"):
+    if via_file and p and b is not None and not p.endswith(b"\n"):
+        # takes precedence: whatever else is unusual about the directive, this is what damages it
         fam = "directive-file-roundtrip-patch-without-final-newline-before-bundle"
+    elif kw["testament_sha1"] is None and testament_variant() == "strict":
+        fam = "directive-without-testament-sha1-does-not-parse"
     return dom, fam
+
+
+NONL = "directive-file-roundtrip-patch-without-final-newline-before-bundle"
+
+
+def nonl_outcome(kw):
+    """what the no-final-newline family predicts (and the Lean model computes): the bundle marker is glued
+    to the last patch line, marker and bundle become part of the patch, there is no bundle"""
+    return kw["patch"] + b"# Begin bundle\n" + kw["bundle"], None
 
 
 def _exc_kind(e):
@@ -1377,11 +1461,30 @@ def _exc_kind(e):
     return "E:%s" % type(e).__name__
 
 
+_variant = {}
+
+
+def testament_variant():
+    """which `_from_lines` the tree has: 'strict' (as found: a directive without testament sha1 cannot be
+    parsed, TypeError) or 'tolerant' (the proposed repair); selects the model variant of md.unfields"""
+    if "testament" not in _variant:
+        from breezy import merge_directive as md
+        d = md.MergeDirective2(revision_id=b"r", testament_sha1=None, time=86400, timezone=0, target_branch="t",
+                               source_branch="s", base_revision_id=b"b")
+        try:
+            ok = md.MergeDirective.from_lines(d.to_lines()).testament_sha1 is None
+            _variant["testament"] = "tolerant" if ok else "strict"
+        except TypeError:
+            _variant["testament"] = "strict"
+    return _variant["testament"]
+
+
 def directive_case(kw, out, via_file):
     """serialise, parse back (from the line list or from a file object), compare every field; queue T2 lines"""
     from io import BytesIO
     from breezy import merge_directive as md
     sh = shim()
+    variant = testament_variant()         # (probes once; before anything of this case goes through the shim)
     case = dict(directive={k: (v.decode("latin-1") if isinstance(v, bytes) else v) for k, v in kw.items()}, via_file=via_file)
     d = md.MergeDirective2(**kw)
     dom, fam = classify_directive(kw, via_file)
@@ -1415,15 +1518,25 @@ def directive_case(kw, out, via_file):
         kind = _exc_kind(e)
         out["count"]["from_lines-raised:%s" % kind] += 1
         if sh.read is not None and kind in ("E:TypeError", "E:KeyError", "E:NoMergeSource", "E:BadOffset", "E:BadDate"):
-            out["t2"].append((case, "md.unfields %s %s" % (pairs_str(sh.read), "T" if has_bundle else "F"), kind))
+            out["t2"].append((case, "md.unfields %s %s %s" % (variant, pairs_str(sh.read), "T" if has_bundle else "F"), kind))
         if dom is None:
-            out["viol"].append((case, "from_lines(to_lines(d)) raises %s: %s" % (type(e).__name__, str(e)[:100]), fam))
+            # the family is only assigned when the failure is the one it predicts
+            if fam == NONL:
+                f2 = fam if (kind == "E:NoMergeSource" and kw["source_branch"] is None) else None
+            elif fam is not None:
+                f2 = fam if kind == "E:TypeError" else None
+            else:
+                f2 = None
+            out["viol"].append((case, "from_lines(to_lines(d)) raises %s: %s" % (type(e).__name__, str(e)[:100]), f2))
         return lines
     compare = [k for k in FIELDS if not (dom == "by-design:epoch-is-written-in-utc" and k == "timezone")]
     bad = [k for k in compare if getattr(d2, k) != kw[k]]
     if bad and (dom is None or dom.startswith("by-design")):
+        f2 = None
+        if fam == NONL and set(bad) <= {"patch", "bundle"} and (d2.patch, d2.bundle) == nonl_outcome(kw):
+            f2 = fam
         out["viol"].append((case, "from_lines(to_lines(d)) differs from d in %s: %r / %r" % (
-            bad, [getattr(d2, k) for k in bad][:2], [kw[k] for k in bad][:2]), fam))
+            bad, [getattr(d2, k) for k in bad][:2], [kw[k] for k in bad][:2]), f2))
     if dom is not None:
         out["count"]["%s:roundtrip-%s" % (dom, "differs" if bad else "equal")] += 1
     got_block = list(sh.consumed or [])
@@ -1435,7 +1548,7 @@ def directive_case(kw, out, via_file):
     else:
         out["t2"].append((case, "md.from %s" % hexl(lines), impl))
     if sh.read is not None:
-        out["t2"].append((case, "md.unfields %s %s" % (pairs_str(sh.read), "T" if d2.bundle is not None else "F"),
+        out["t2"].append((case, "md.unfields %s %s %s" % (variant, pairs_str(sh.read), "T" if d2.bundle is not None else "F"),
                           "ok %s %s %d %d %s %s %s %s" % (
                               hext(d2.revision_id), hext(d2.testament_sha1), d2.time, d2.timezone, hext(d2.target_branch),
                               hext(d2.source_branch), hext(d2.message), hext(d2.base_revision_id))))
@@ -1674,8 +1787,8 @@ def scenario_keys(ctx, n):
         ["2a", "2a", "1.9", "1.9-rich-root", "2a", "pack-0.92", "knit"]
     keys = [((ctx.seed, i, fmts[i % len(fmts)]), ctx.tier) for i in range(n)]
     # one directed scenario per run (conflicting merge, symlink retargets, criss-cross), format by seed
-    forced_fmt = ["2a", "1.9-rich-root", "2a", "1.9"][ctx.seed % 4] if ctx.tier == "quick" else "2a"
-    keys.insert(0, ((ctx.seed, "F", forced_fmt), ctx.tier))
+    # (2a on every seed: several installer paths - delta basis, CHK text selection - exist only there)
+    keys.insert(0, ((ctx.seed, "F", "2a"), ctx.tier))
     if ctx.tier != "quick":
         keys.insert(1, ((ctx.seed, "F", "1.9"), ctx.tier))
         keys.insert(2, ((ctx.seed, "F", "pack-0.92"), ctx.tier))
@@ -1724,6 +1837,7 @@ def run(ctx, nscen=None, ndir=None):
         if lines is not None and rng.random() < 0.12:
             damaged_case(rng, lines, good, out)
     pdate_cases(rng, out, ctx.pick(300, 3000))
+    ctx.extra["model_variants"] = {"_from_lines without testament_sha1": testament_variant()}
     _merge_out(ctx, dict(out, count=dict(out["count"])), t2)
     # ---- 3. histories, bundles, merges, from_objects ------------------------------------------
     keys = scenario_keys(ctx, nscen or ctx.pick(6, 20))
@@ -1731,6 +1845,8 @@ def run(ctx, nscen=None, ndir=None):
         _merge_out(ctx, o, t2)
     if t2 and ctx.model_available:
         ctx.diff([c for c, _l, _i in t2], [l for _c, l, _i in t2], [i for _c, _l, i in t2])
+    # violations without a family (anything that is not a classified finding) are reported first
+    ctx.violations.sort(key=lambda v: v.get("family") is not None)
 
 
 def widen(ctx):
